@@ -13,6 +13,7 @@ import (
 	"verif/harness"
 	"verif/impl"
 	"verif/model"
+	"verif/univ"
 )
 
 func init() { register("C19", checkC19) }
@@ -91,8 +92,19 @@ func checkC19(r *harness.Run) harness.Coverage {
 		{`{"a": 1}` + "\f", "invalid"}, {"\v" + `{"a": 1}`, "invalid"}, {`{"a": 1}` + "\u00a0\n", "invalid"}, {"\u0085" + `[1]`, "invalid"}, {`{"a": 1}` + "\x00", "invalid"},
 		{``, "invalid"}, {"  \n", "invalid"}, {`{"a": `, "invalid"}, {`{"a": 1} x`, "invalid"}, {`{"a": 1} {"a": 2}`, "invalid"}, {`{'a': 1}`, "invalid"}, {`[1, 2,]`, "invalid"}, {"\xff\xfe", "invalid"}, {`"` + "\xff" + `"`, "as-go-decodes"}, {`1e999`, "as-go-decodes"}, {`nul`, "invalid"},
 	}
-	if !r.Thorough() {
-		// quick: thin the product deterministically (every expression with every input kind at least once)
+	handWritten := len(exprs)
+	if r.Thorough() {
+		// thorough: every sentence of the mixed fragment up to structural weight 4, on the first inputs of every type
+		seen := map[string]bool{}
+		for _, e := range exprs {
+			seen[e.text] = true
+		}
+		for _, e := range buildExprs(univ.NewGen(univ.MixedFragment()), 4, nil) {
+			if !seen[e.text] && !strings.HasPrefix(e.text, "-") {
+				seen[e.text] = true
+				exprs = append(exprs, c19Expr{e.text, "generated"})
+			}
+		}
 	}
 	tmp, err := os.MkdirTemp("", "verif-c19-")
 	if err != nil {
@@ -110,16 +122,16 @@ func checkC19(r *harness.Run) harness.Coverage {
 	var jobs []job
 	for ei := range exprs {
 		for ii := range inputs {
-			if !r.Thorough() && (ei*7+ii)%3 != 0 && !(ei < 8 || ii < 3) {
-				continue
+			if ei >= handWritten && ii >= 9 {
+				continue // generated expressions: the first nine (valid, one per JSON type) inputs
 			}
 			for ch := 0; ch < 2; ch++ {
 				jobs = append(jobs, job{ei, ii, ch})
 			}
-			if (ei+ii)%4 == 0 || r.Thorough() {
+			if ei < handWritten {
 				jobs = append(jobs, job{ei, ii, 3}) // stdin redirected from a regular file
 			}
-			if devStdin && ((ei+ii)%4 == 1 || r.Thorough()) {
+			if devStdin && ei < handWritten {
 				jobs = append(jobs, job{ei, ii, 4}) // -input names a file that is not a regular file (a pipe: size 0, read to EOF)
 			}
 		}
@@ -244,5 +256,5 @@ func checkC19(r *harness.Run) harness.Coverage {
 	r.Note("inputs", len(inputs))
 	r.Sample(map[string]interface{}{"argv": []string{"jpgo", "-input", "in0.json", "a.b"}, "input": inputs[0].text, "expected": "exit 0, stdout = indented JSON of [1,2]"})
 	r.Sample(map[string]interface{}{"argv": []string{"jpgo", "nosuch(@)"}, "stdin": inputs[0].text, "expected": "empty stdout, non-zero exit"})
-	return harness.Coverage{Exhaustive: true, Bounds: map[string]interface{}{"expressions": len(exprs), "inputs": len(inputs), "channels": 5}, Outcomes: 2}
+	return harness.Coverage{Exhaustive: true, Bounds: map[string]interface{}{"expressions": len(exprs), "hand_written_expressions": handWritten, "inputs": len(inputs), "channels": 5, "product": "full (hand-written expressions x all inputs x all channels); generated expressions x 9 valid inputs x 2 channels"}, Outcomes: 2}
 }
